@@ -1164,6 +1164,9 @@ class SCFGIO:
         for b in sorted(blocks):
             ys += indent(f"'{b}':\n", " " * 8)
             for k, v in blocks[b].items():
+                # Quote strings, block names such as '0' would otherwise be
+                # read back as numbers.
+                v = repr(v) if isinstance(v, str) else v
                 ys += indent(f"{k}: {v}\n", " " * 12)
 
         ys += "\nedges:\n"
